@@ -382,7 +382,9 @@ def r5_failure_classes(ctx):
                 continue
             for c in b.calls_to(CTOR):
                 n += 1
-                lv = tr.origins(b, c.args[1])
+                # the error object may be spelled ErrorObject::from(code) or ErrorObject::owned(code.code(), ..): look through
+                tr_e = ctx.tracer(follow_callers=False, follow_fields=False, extra_transparent=[(r"ErrorObject::<'.*>::(owned|borrowed)$", 0), (r"ErrorCode::code$", 0)])
+                lv = tr_e.origins(b, c.args[1])
                 ok = any(l.kind == "agg" and l.detail.get("variant") == "InternalError" for l in lv)
                 R.check(ok, "C01.R5", label + ":-32603", "a failed blocking task is answered InternalError", "a failed blocking task is answered with %s" % [flow.leaf_str(l) for l in lv], where(c))
     R.floor("C01.R5.blocking", n, 1, "JoinError reply sites")
